@@ -905,7 +905,8 @@ func (c *Ctx) PanicIDX(rule string, entry ...string) []report.Obligation {
 // Conditions, all read off the SSA form:
 //  1. the index is the value of a comma-ok lookup in map m and the access is dominated by ok == true;
 //  2. m is a local MakeMap used only by lookups and map updates (it does not escape);
-//  3. every update of m stores len(A)-1 where A = append(H, one or more elements) is the single append of the
+//  3. every update of m stores len(A)-1 - or len(H), the update then preceding the append - where
+//     A = append(H, one or more elements) is the single append of the
 //     slice's "family" (the values connected to the indexed slice by phis and by A's first operand), whose only
 //     other member is one initial value created in the same block as m (so a fresh slice never meets an old map);
 //  4. after the update, in the same iteration, every phi edge of the family carries A (the grown slice is not
@@ -955,26 +956,51 @@ func indexMapIdiom(x, idx ssa.Value, at *ssa.BasicBlock) bool {
 		return false
 	}
 	u := updates[0]
-	// value stored: len(A) - 1
-	bo, ok := u.Value.(*ssa.BinOp)
-	if !ok || bo.Op != token.SUB {
-		return false
+	// value stored: len(A) - 1, or len(H) when the update precedes the append A = append(H, ...)
+	isLen := func(v ssa.Value) (ssa.Value, bool) {
+		lc, ok := v.(*ssa.Call)
+		if !ok {
+			return nil, false
+		}
+		if bi, isB := lc.Call.Value.(*ssa.Builtin); !isB || bi.Name() != "len" {
+			return nil, false
+		}
+		return lc.Call.Args[0], true
 	}
-	if k, isC := intConst(bo.Y); !isC || k != 1 {
-		return false
+	isAppend := func(v ssa.Value) (*ssa.Call, bool) {
+		app, ok := v.(*ssa.Call)
+		if !ok {
+			return nil, false
+		}
+		if bi, isB := app.Call.Value.(*ssa.Builtin); !isB || bi.Name() != "append" || len(app.Call.Args) != 2 {
+			return nil, false
+		}
+		return app, true
 	}
-	lc, ok := bo.X.(*ssa.Call)
-	if !ok {
-		return false
-	}
-	if bi, isB := lc.Call.Value.(*ssa.Builtin); !isB || bi.Name() != "len" {
-		return false
-	}
-	app, ok := lc.Call.Args[0].(*ssa.Call)
-	if !ok {
-		return false
-	}
-	if bi, isB := app.Call.Value.(*ssa.Builtin); !isB || bi.Name() != "append" || len(app.Call.Args) != 2 {
+	var app *ssa.Call
+	if bo, ok := u.Value.(*ssa.BinOp); ok && bo.Op == token.SUB {
+		if k, isC := intConst(bo.Y); !isC || k != 1 {
+			return false
+		}
+		arg, ok := isLen(bo.X)
+		if !ok {
+			return false
+		}
+		if app, ok = isAppend(arg); !ok {
+			return false
+		}
+	} else if h, ok := isLen(u.Value); ok {
+		n := 0
+		for _, r := range *h.Referrers() {
+			if a, isA := isAppend(valueOf(r)); isA && a.Call.Args[0] == h {
+				app = a
+				n++
+			}
+		}
+		if n != 1 || !prog.InstrDominates(u, app) {
+			return false
+		}
+	} else {
 		return false
 	}
 	// appended part has a positive constant length
@@ -1087,6 +1113,11 @@ func indexMapIdiom(x, idx ssa.Value, at *ssa.BasicBlock) bool {
 		}
 	}
 	return true
+}
+
+func valueOf(in ssa.Instruction) ssa.Value {
+	v, _ := in.(ssa.Value)
+	return v
 }
 
 func stripConvs(v ssa.Value) ssa.Value {
